@@ -38,7 +38,10 @@ func runC01(c *Check, rng *rand.Rand) {
 		t.Nodes[3].Slots[0] = [2]int{r[0], r[1] - 200}
 		return t
 	}
-	cfgs := []cfg{{"default", EnvOpt{Masters: 8}}, {"gap", EnvOpt{Masters: 8, Topo: gapTopo}}}
+	// "limit": a small reply size limit; now and then one fragment of a split MGET is
+	// answered with more than that (the request is answered with an error, whatever its
+	// siblings do and whenever they answer)
+	cfgs := []cfg{{"default", EnvOpt{Masters: 8}}, {"gap", EnvOpt{Masters: 8, Topo: gapTopo}}, {"limit", EnvOpt{Masters: 8, Cfg: ProxyCfg{MsgMax: 3000}}}}
 	if c.Thorough() {
 		cfgs = append(cfgs,
 			cfg{"password+replicas", EnvOpt{Masters: 4, Replicas: 1, Cfg: ProxyCfg{Password: "sekret"}}},
@@ -66,7 +69,7 @@ func runC01(c *Check, rng *rand.Rand) {
 			if ci > 0 {
 				n = ncases / 3
 			}
-			if cf.name == "gap" {
+			if cf.name == "gap" || cf.name == "limit" {
 				n = ncases / 2
 			}
 			c01config(c, lrng, cf.name, cf.opt, n)
@@ -116,9 +119,16 @@ func c01config(c *Check, rng *rand.Rand, name string, opt EnvOpt, ncases int) {
 		if name == "gap" {
 			g.wUnroutable = 1 + rng.Intn(3)
 		}
+		if name == "limit" {
+			g.bigFrag = 2
+			g.bigSize = 3200
+			if g.wMulti == 0 {
+				g.wMulti = 3
+			}
+		}
 		c01run(c, rng, env, g, cs, name)
 	}
-	if name == "gap" {
+	if name == "gap" || name == "limit" {
 		return
 	}
 	// deep pipelines: more than 1024 (the writev limit) completed replies behind a slow head
@@ -134,10 +144,18 @@ func c01config(c *Check, rng *rand.Rand, name string, opt EnvOpt, ncases int) {
 			time.Sleep(time.Second)
 			env.Barrier()
 		}
+		// three more requests on the same connection: what the big flush left in the
+		// queue shows up in front of their replies
+		var more []*PReq
+		g2 := &pipeGen{env: env, script: script, rng: rng, gated: false, maxMultiKeys: 3, wSingle: 2, wPing: 1}
+		more = g2.pipeline(3)
+		cl.Send(concatReqs(more))
+		cl.WaitReplies(n+3, 5*time.Second)
+		p = append(p, more...)
 		s := cl.Snapshot()
 		for _, is := range checkPipeline(p, s) {
 			c.Violate(Violation{Class: is.Class, Shape: "deep-pipeline-behind-slow-head", Detail: is.Detail[:minInt(len(is.Detail), 200)],
-				Witness: map[string]interface{}{"config": name, "requests": n, "replies": len(s.Replies), "shape": "first request gated, all later ones answered at once"}})
+				Witness: map[string]interface{}{"config": name, "requests": n, "replies": len(s.Replies), "shape": "first request gated, all later ones answered at once, then three more requests"}})
 		}
 		c.Eval(1)
 		c.Distinct(fmt.Sprintf("%s|deep|%d", name, n))
